@@ -43,7 +43,9 @@ pub fn count() -> usize {
 #[inline]
 pub fn measure<R>(f: impl FnOnce() -> R) -> (usize, R) {
     let before = count();
-    let r = f();
+    // black_box: the optimiser must materialise the result (and may not elide an allocation
+    // the result owns), and may not move the call out of the window
+    let r = std::hint::black_box(f());
     let after = count();
     (after.wrapping_sub(before), r)
 }
